@@ -380,11 +380,16 @@ def bounds_helpers(ctx: Context) -> Tuple[FuncInfo, FuncInfo]:
         first = fi.params[0]
         # names that alias a copy of the first parameter (u = u.copy(); folded = u.copy(); np.array(u))
         copies = {first}
+        has_copy = any(isinstance(n, ast.Call) and ((isinstance(n.func, ast.Attribute) and n.func.attr == "copy") or dotted(n.func) in ("np.array", "np.copy", "numpy.array")) for n in walk_no_nested(fi.node))
         for n in walk_no_nested(fi.node):
             if isinstance(n, ast.Assign) and len(n.targets) == 1 and isinstance(n.targets[0], ast.Name):
                 v = n.value
                 if isinstance(v, ast.Call) and ((isinstance(v.func, ast.Attribute) and v.func.attr == "copy" and isinstance(v.func.value, ast.Name) and v.func.value.id in copies) or
                                                (dotted(v.func) in ("np.array", "np.copy", "numpy.array") and v.args and isinstance(v.args[0], ast.Name) and v.args[0].id in copies)):
+                    copies.add(n.targets[0].id)
+                # views of a copy (same memory, other shape): cols = np.atleast_2d(u) / u.reshape(...)
+                elif isinstance(v, ast.Call) and has_copy and ((dotted(v.func) in ("np.atleast_2d", "np.atleast_1d", "np.asarray", "np.reshape", "np.ravel") and v.args and isinstance(v.args[0], ast.Name) and v.args[0].id in copies)
+                                                                     or (isinstance(v.func, ast.Attribute) and v.func.attr in ("reshape", "view", "ravel") and isinstance(v.func.value, ast.Name) and v.func.value.id in copies)):
                     copies.add(n.targets[0].id)
         stores = any(isinstance(n, (ast.Assign, ast.AugAssign)) and isinstance((n.targets[0] if isinstance(n, ast.Assign) else n.target), ast.Subscript)
                      and isinstance((n.targets[0] if isinstance(n, ast.Assign) else n.target).value, ast.Name)
